@@ -329,7 +329,7 @@ pub fn run_check<P: Prop>(prop: P, tier: Tier) -> ! {
     let stop = Arc::new(AtomicBool::new(false));
     let slots: Arc<Vec<Mutex<Option<(u64, Instant)>>>> = Arc::new((0..workers).map(|_| Mutex::new(None)).collect());
     let deadline = t0 + Duration::from_secs(wall);
-    let recheck = budget.recheck.min(runs);
+    let recheck = std::env::var("VERIF_RECHECK").ok().and_then(|s| s.parse().ok()).unwrap_or(budget.recheck).min(runs);
     let mut handles = Vec::new();
     for w in 0..workers {
         let (prop, agg, next, stop, slots, known_w) = (prop.clone(), agg.clone(), next.clone(), stop.clone(), slots.clone(), known_arc.clone());
@@ -416,6 +416,7 @@ pub fn run_check<P: Prop>(prop: P, tier: Tier) -> ! {
         mismatches = mm.lock().unwrap().clone();
     }
 
+    if let Ok(path) = std::env::var("VERIF_DUMP_HASHES") { let h = agg.lock().unwrap().hashes.clone(); let txt: String = h.iter().map(|(i, x)| format!("{} {:016x}\n", i, x)).collect(); let _ = std::fs::write(path, txt); }
     let mut a = agg.lock().unwrap();
     // ---- violations: match against known findings, minimise, write replay
     let mut reported = 0u64;
@@ -469,7 +470,7 @@ pub fn run_check<P: Prop>(prop: P, tier: Tier) -> ! {
         "assumptions": prop.assumptions(), "wall_s": wall_s, "violations": reported
     });
     let evdir = verif_dir().join("evidence"); let _ = std::fs::create_dir_all(&evdir);
-    std::fs::write(evdir.join(format!("{}.json", id)), serde_json::to_string_pretty(&ev).unwrap()).expect("write evidence");
+    if std::env::var("VERIF_EVIDENCE_OFF").is_err() { std::fs::write(evdir.join(format!("{}.json", id)), serde_json::to_string_pretty(&ev).unwrap()).expect("write evidence"); }
     outln!("[{}] evaluations={} distinct_nontrivial={} violating_runs={} reported={} suppressed_runs={} recheck={}/{} slowest={:.1}s@{} wall={:.1}s", id, a.evaluations, a.nontrivial.len(), a.violating_runs, reported, a.suppressed_runs, rechecked - mismatches.len() as u64, rechecked, a.slowest.0, a.slowest.1, wall_s);
     if !a.harness_errors.is_empty() {
         for e in a.harness_errors.iter().take(5) { outln!("HARNESS-ERROR {}", e); }
